@@ -271,6 +271,19 @@ fn main() {
                 writeln!(out, "diff {} {} {} {}", i, th, round, r).unwrap();
             }
         }
+        // W TAB REORDER SRCHEX OUTHEX -> the oracle fields with OUT judged as the output for SRC
+        "oraclefor" => {
+            for line in stdin.lock().lines() {
+                let line = line.unwrap();
+                let mut it = line.split_whitespace();
+                let w: usize = it.next().unwrap().parse().unwrap();
+                let t: usize = it.next().unwrap().parse().unwrap();
+                let r: usize = it.next().unwrap().parse().unwrap();
+                let src = unhex(it.next().unwrap());
+                let given = unhex(it.next().unwrap());
+                writeln!(out, "{}", oracle::run_with(w, t, r != 0, &src, Some(&given))).unwrap();
+            }
+        }
         // W -> chain_width
         "chainw" => {
             for line in stdin.lock().lines() {
